@@ -192,7 +192,7 @@ func lemma_block_no_leak(i *ignore, meta *ast.Meta) {
 // same relation. The side conditions are scanned on every run: `only-writers` and `callers`.
 
 //@ func (*Linter).lint [C12]
-//@   by-induction statement-level ignore sets only shrink across any lint function; side conditions: only ignoreRules/unignoreRules write ignoredRules, only the four setup/teardown functions call them, only lintStatement/lintBlockStatement(+its closure) call those, Linter.ignore is never reassigned, and every lint function runs on the one Linter it was entered with
+//@   by-induction [C12] statement-level ignore sets only shrink across any lint function; side conditions: only ignoreRules/unignoreRules write ignoredRules, only the four setup/teardown functions call them, only lintStatement/lintBlockStatement(+its closure) call those, Linter.ignore is never reassigned, and every lint function runs on the one Linter it was entered with
 //@   requires l != nil && okIgnore(l.ignore)
 //@   preserves F:ast.Meta. F:ast.Comment. E:*ast.Comment .Meta: E:linter.Rule
 //@   ensures [linter-keeps-its-ignore] l.ignore == old(l.ignore) && okIgnore(l.ignore)
@@ -224,7 +224,7 @@ func lemma_block_no_leak(i *ignore, meta *ast.Meta) {
 //@   ensures [top-level-statement-does-not-leak] old(cleanRules(l.ignore.ignoreNextLine) && cleanRules(l.ignore.ignoreThisLine)) ==> cleanRules(l.ignore.ignoreNextLine) && cleanRules(l.ignore.ignoreThisLine)
 
 //@ func (*Linter).resolveIncludeStatements [C12]
-//@   by-induction include resolution parses other files; it neither touches the ignore sets (only-writers scan) nor the comments of nodes that already exist
+//@   by-induction [C12] include resolution parses other files; it neither touches the ignore sets (only-writers scan) nor the comments of nodes that already exist
 //@   requires l != nil
 //@   preserves F:ast.Meta. F:ast.Comment. E:*ast.Comment .Meta: E:linter.Rule
 //@   ensures [linter-keeps-its-ignore] l.ignore == old(l.ignore)
@@ -250,3 +250,29 @@ func lemma_block_no_leak(i *ignore, meta *ast.Meta) {
 //@   ensures [next-line-only-shrinks] (l.ignore.ignoreNextLine.all ==> old(l.ignore.ignoreNextLine.all)) && (forall r Rule :: l.ignore.ignoreNextLine.rules[r] ==> old(l.ignore.ignoreNextLine.rules[r]))
 //@   ensures [this-line-only-shrinks] (l.ignore.ignoreThisLine.all ==> old(l.ignore.ignoreThisLine.all)) && (forall r Rule :: l.ignore.ignoreThisLine.rules[r] ==> old(l.ignore.ignoreThisLine.rules[r]))
 //@   ensures [block-does-not-leak] old(cleanRules(l.ignore.ignoreNextLine)) ==> cleanRules(l.ignore.ignoreNextLine)
+
+// ---- C11: include resolution is bounded ---------------------------------------------------------------------
+// resolveIncludeStatements and resolveFileInclusion call each other once per nested include; the
+// recursion needs a measure that decreases at every call.
+//@ pred okDepth(l *Linter) = l != nil && l.ignore != nil && l.includeDepth >= 0 && l.includeDepth <= maxIncludeDepth
+
+//@ func (*Linter).resolveIncludeStatements [C11]
+//@   recursion-bounded [C11]
+//@   requires okDepth(l)
+//@   decreases maxIncludeDepth - l.includeDepth
+//@   rank 2
+//@   ensures [depth-restored] l.includeDepth == old(l.includeDepth) && l.ignore == old(l.ignore)
+//@   loop 1 invariant l.includeDepth == old(l.includeDepth) && l.ignore == old(l.ignore)
+
+//@ func (*Linter).resolveFileInclusion [C11]
+//@   recursion-bounded [C11]
+//@   requires okDepth(l)
+//@   decreases maxIncludeDepth - l.includeDepth
+//@   rank 1
+//@   ensures [depth-restored] l.includeDepth == old(l.includeDepth) && l.ignore == old(l.ignore)
+
+// the sweep: no reachable panic in any function of the package, for any (well-formed) syntax tree
+//@ forall-funcs .* [C11]
+//@   requires? l != nil && l.ignore != nil
+//@   requires? ctx != nil
+//@   safe
